@@ -106,4 +106,92 @@ Proof.
   now rewrite (history_results_sem gstate value req draw seed h' g' insts' j ip sk a o Hj L).
 Qed.
 
+
+(* ---------------------------------------------------------------- a generator object threaded through a SEQUENCE of calls *)
+Lemma upd_same : forall (A : Type) (l : list A) k x y, nth_error l k = Some y -> nth_error (upd k x l) k = Some x.
+Proof. induction l as [|a l IH]; intros [|k] x y H; simpl in *; try discriminate; eauto. Qed.
+
+Lemma upd_other : forall (A : Type) (l : list A) k k' x, k' <> k -> nth_error (upd k' x l) k = nth_error l k.
+Proof. induction l as [|a l IH]; intros [|k] [|k'] x H; simpl; auto; try congruence. Qed.
+
+(* the calls of a history made on the caller's k-th generator object, and their outcomes in a run *)
+Fixpoint calls_on (k : nat) (h : list event) : list (interp * skel) :=
+  match h with
+  | [] => []
+  | ECall ip sk (RInst k') :: r => if Nat.eqb k' k then (ip, sk) :: calls_on k r else calls_on k r
+  | _ :: r => calls_on k r
+  end.
+Fixpoint outcomes_on (k : nat) (h : list event) (os : list (option (outcome gstate value))) : list (option (outcome gstate value)) :=
+  match h, os with
+  | ECall _ _ (RInst k') :: r, o :: os' => if Nat.eqb k' k then o :: outcomes_on k r os' else outcomes_on k r os'
+  | _ :: r, _ :: os' => outcomes_on k r os'
+  | _, _ => []
+  end.
+(* the object threaded through these calls ALONE: no history, no global generator, no other object *)
+Fixpoint thread (gs : gstate) (cs : list (interp * skel)) : list (option (outcome gstate value)) * gstate :=
+  match cs with
+  | [] => ([], gs)
+  | (ip, sk) :: r =>
+      match callL ip sk (HInst gs) with
+      | Some o => let (os, gs2) := thread (match o_inst o with Some x => x | None => gs end) r in (Some o :: os, gs2)
+      | None => ([], gs)
+      end
+  end.
+
+Theorem history_instance_thread : forall (h : list event) g insts k gs,
+  nth_error insts k = Some gs ->
+  forallb (fun c => global_free_w (snd c)) (calls_on k h) = true ->
+  outcomes_on k h (fst (fst (runH h g insts))) = fst (thread gs (calls_on k h)) /\
+  nth_error (snd (runH h g insts)) k = Some (snd (thread gs (calls_on k h))).
+Proof.
+  induction h as [|e h IH]; intros g insts k gs Hk Hw.
+  - simpl. auto.
+  - destruct e as [ip sk a|f|s'].
+    + destruct a as [|s|k'| |].
+      * simpl in Hw |- *. destruct (callG (idenv gstate) ip sk HNone g) as [o g1].
+        specialize (IH g1 insts k gs Hk Hw). unfold writeback. destruct (runH h g1 insts) as [[os g2] i2]. exact IH.
+      * simpl in Hw |- *. destruct (callG (idenv gstate) ip sk (HInt s) g) as [o g1].
+        specialize (IH g1 insts k gs Hk Hw). unfold writeback. destruct (runH h g1 insts) as [[os g2] i2]. exact IH.
+      * cbn [calls_on] in Hw |- *. destruct (Nat.eqb k' k) eqn:E.
+        -- apply Nat.eqb_eq in E. subst k'. cbn [forallb snd] in Hw. apply andb_true_iff in Hw as [Hs Hw].
+           destruct (gfw_call gstate value req draw seed ip sk (HInst gs) Hs eq_refl) as (o & n & L & _ & G).
+           cbn [run_hist resolve]. rewrite Hk. rewrite G. cbn [thread]. rewrite L.
+           assert (Hk1 : nth_error (writeback gstate value (RInst k) o insts) k = Some (match o_inst o with Some x => x | None => gs end)).
+           { unfold writeback. destruct (o_inst o); [eapply upd_same; eauto | exact Hk]. }
+           specialize (IH (advance gstate (idenv gstate) 0 n g) _ k _ Hk1 Hw).
+           destruct (runH h _ _) as [[os g2] i2]. destruct (thread _ (calls_on k h)) as [ts gs2].
+           cbn [fst snd outcomes_on] in *. rewrite Nat.eqb_refl. destruct IH as [IH1 IH2]. split; [now rewrite IH1 | exact IH2].
+        -- apply Nat.eqb_neq in E. cbn [run_hist].
+           destruct (callG (idenv gstate) ip sk (resolve gstate (RInst k') insts) g) as [o g1].
+           assert (Hk1 : nth_error (writeback gstate value (RInst k') o insts) k = Some gs).
+           { unfold writeback. destruct (o_inst o); [rewrite upd_other; auto | exact Hk]. }
+           specialize (IH g1 _ k gs Hk1 Hw). destruct (runH h g1 _) as [[os g2] i2].
+           cbn [fst snd outcomes_on] in *. apply Nat.eqb_neq in E. rewrite E. exact IH.
+      * simpl in Hw |- *. destruct (callG (idenv gstate) ip sk HGlobObj g) as [o g1].
+        specialize (IH g1 insts k gs Hk Hw). unfold writeback. destruct (runH h g1 insts) as [[os g2] i2]. exact IH.
+      * simpl in Hw |- *. destruct (callG (idenv gstate) ip sk HBad g) as [o g1].
+        specialize (IH g1 insts k gs Hk Hw). unfold writeback. destruct (runH h g1 insts) as [[os g2] i2]. exact IH.
+    + simpl in Hw |- *. specialize (IH (f g) insts k gs Hk Hw). destruct (runH h (f g) insts) as [[os g2] i2]. exact IH.
+    + simpl in Hw |- *.
+      assert (Hk1 : nth_error (insts ++ [seed s']) k = Some gs).
+      { rewrite nth_error_app1; auto. apply nth_error_Some. congruence. }
+      specialize (IH g _ k gs Hk1 Hw). destruct (runH h g _) as [[os g2] i2]. exact IH.
+Qed.
+
+(* two objects in the same state threaded through the same sequence of calls -- in one history or in two, whatever else
+   happens in between (other library calls with any random_state, other objects, arbitrary use of the global generator) --
+   see the same outcomes step by step and end in the same state *)
+Theorem history_threaded_instances : forall (h h' : list event) g g' insts insts' k k' gs,
+  nth_error insts k = Some gs -> nth_error insts' k' = Some gs ->
+  calls_on k h = calls_on k' h' ->
+  forallb (fun c => global_free_w (snd c)) (calls_on k h) = true ->
+  outcomes_on k h (fst (fst (runH h g insts))) = outcomes_on k' h' (fst (fst (runH h' g' insts'))) /\
+  nth_error (snd (runH h g insts)) k = nth_error (snd (runH h' g' insts')) k'.
+Proof.
+  intros h h' g g' insts insts' k k' gs Hk Hk' Hc Hw.
+  destruct (history_instance_thread h g insts k gs Hk Hw) as [A1 A2].
+  rewrite Hc in Hw. destruct (history_instance_thread h' g' insts' k' gs Hk' Hw) as [B1 B2].
+  rewrite A1, A2, B1, B2, Hc. auto.
+Qed.
+
 End H2.
